@@ -28,13 +28,18 @@ ASSUMPTIONS = ['excluded by construction (counted): plain re-linking of an objec
                'touching objects that are unreachable; undo of transactions at or before the pack time',
                'a pack that raises and leaves the protected region unchanged is an allowed outcome (counted)',
                'the unpacked twin is checked against the history model by the full battery (as in C04)']
-BUDGET = {'quick': {'examples': 5000, 'workers': 8},
+BUDGET = {'quick': {'examples': 7000, 'workers': 8},
           'thorough': {'examples': 100000, 'workers': 16}}
 
 KINDS = ['fs', 'fs', 'fs', 'fs-nogc', 'mapping', 'demo']
 
 
 def strategy(tier):
+    graph = graph_strategy(tier)
+    return st.integers(0, 99).flatmap(lambda r: blob_strategy(tier) if r < 12 else graph)
+
+
+def graph_strategy(tier):
     n = 12 if tier == 'quick' else 20
     idx = st.integers(0, 30)
     rec = st.one_of(
@@ -89,13 +94,16 @@ def strategy(tier):
         else:
             for u in undos:
                 prog.append(['gundo', [['abs', ncut_start + u]]])
-        packk = after_cuts + draw(st.sampled_from([0, 0, 0, -1, 1, 2]))
+        # undo of the undo of the undo ...: back-pointer chains of length >= 2 ending in the record with the pickle
+        chain = draw(st.sampled_from([0, 0, 1, 2, 3]))
+        for _ in range(chain):
+            prog.append(['gundo', [0]])
+        packk = after_cuts + draw(st.sampled_from([0, 0, 0, -1, 1, 2] + ([len(prog) - after_cuts, len(prog) - after_cuts - 1] if chain else [])))
         prog.append(['pack', ['abs', max(0, packk)], draw(st.sampled_from([0, 1, 2, 3, 4, 5]))])
         prog.extend(draw(st.lists(step, max_size=4)))
         return prog
-    graph = st.fixed_dictionaries({'kind': st.sampled_from(KINDS),
-                                   'prog': st.one_of(free, phased())})
-    return st.integers(0, 99).flatmap(lambda r: blob_strategy(tier) if r < 12 else graph)
+    return st.fixed_dictionaries({'kind': st.sampled_from(KINDS),
+                                  'prog': st.one_of(free, phased(), phased())})
 
 
 def blob_strategy(tier):
